@@ -50,6 +50,9 @@ def flatten_arg(x):
                     names.add(f[1].rsplit("::", 1)[-1])
             if names == {"nrows", "ncols"}:
                 return M
+        # `M.len()` of a matrix is nrows·ncols
+        if dim[0] == "call" and dim[1].rsplit("::", 1)[-1] == "len" and "nalgebra" in dim[1] and dim[3] == (M,):
+            return M
     return None
 
 
